@@ -4,7 +4,7 @@
    message crosses (frontend endpoint gates, request-server gates, daemon
    handler) are modelled as far as they decide whether the handler runs.
    Tied to the code by the correspondence family "dmn". *)
-From VV Require Import Base.Bits Base.Rt Base.Val Gen.GenConsts.
+From VV Require Import Base.Bits Base.Rt Base.Val Gen.GenConsts Gen.GenRoute Gen.GenBitmap.
 Open Scope string_scope.
 Open Scope list_scope.
 Open Scope N_scope.
@@ -65,13 +65,15 @@ Fixpoint upd {A} (l : list A) (i : nat) (x : A) : list A :=
   end.
 Definition kfd_eqb (a b : kfd) : bool := (k_file a =? k_file b) && (k_inst a =? k_inst b).
 
-(* the worker that owns queue q, and q's event id there: the first mask containing q; the id is
-   popcount(mask) - popcount(mask >> q) *)
+(* the worker that owns queue q, and q's event id there: the loop of update_vring_registration /
+   unregister_vring_kick over the worker masks, with the shifted mask, the membership test and the event id
+   expression REGENERATED from handler.rs (Gen.GenRoute); the loop stops at the first hit (route_shape) *)
 Fixpoint owner_of (masks : list N) (q : N) (t : nat) : option (nat * N) :=
   match masks with
   | [] => None
   | m :: r =>
-      if N.testbit m q then Some (t, popcount m - popcount (N.shiftr m q))
+      let shifted := route_shift m q in
+      if route_hit shifted then Some (t, route_evt m shifted)
       else owner_of r q (S t)
   end.
 
@@ -320,15 +322,19 @@ Fixpoint put_locs (locs : list (N * N)) (bytes : list N) (acc : list (N * N * N)
   | (f, o) :: rl, b :: rb => put_locs rl rb ((f, o, b) :: acc)
   | _, _ => acc
   end.
-(* the dirty-log bit of guest byte x of region r: bit (page mod 8) of log byte (page / 8), where page is the region's
-   first page plus the page of the offset inside the region; offsets beyond the region's whole pages are ignored *)
+(* the dirty-log bit of guest byte x of region r: what AtomicBitmapMmap::mark_dirty does for a one-byte write at offset
+   x - gpa of the region, on the bitmap AtomicBitmapMmap::new built for the region - both REGENERATED from bitmap.rs
+   (Gen.GenBitmap): first page of the offset, out-of-bounds stop, absolute page, log word and mask *)
 Definition mark_loc (r : region) (x : N) : option (N * N * N) :=
   match rg_log r with
   | Some (f, off, len) =>
-      let page := (x - rg_gpa r) / 4096 in
-      if page <? rg_size r / 4096
-      then let abs := rg_gpa r / 4096 + page in Some (f, off + abs / 8, 2 ^ (abs mod 8))
-      else None
+      match bm_new (rg_gpa r) (rg_size r) len with
+      | Some (before, npages) =>
+          let page := bm_md_first_page (x - rg_gpa r) 1 in
+          if bm_md_stop page npages then None
+          else let abs := bm_md_abs before page in Some (f, off + bm_md_word abs, bm_md_mask abs)
+      | None => None
+      end
   | None => None
   end.
 Definition store_get (l : list (N * N * N)) (f off : N) : N :=
@@ -398,7 +404,7 @@ Definition mk_region (log : option (N * N * N)) (a : list N) : region :=
   {| rg_gpa := nth 0 a 0; rg_size := nth 1 a 0; rg_file := nth 4 a 0; rg_off := nth 3 a 0; rg_log := log |}.
 (* a new region takes the dirty log in force, which must be able to cover it *)
 Definition log_fits (len : N) (r : region) : bool :=
-  (rg_gpa r mod 4096 =? 0) && (rg_size r mod 4096 =? 0) && (((rg_gpa r + rg_size r - 1) / 4096) / 8 <? len).
+  match bm_new (rg_gpa r) (rg_size r) len with Some _ => true | None => false end.    (* AtomicBitmapMmap::new, regenerated *)
 Definition new_region_ok (m : dmem) (a : list N) : bool :=
   mmap_ok m (nth 3 a 0) (nth 1 a 0) (nth 4 a 0)
   && match m_log m with Some (_, _, len) => log_fits len (mk_region None a) | None => true end.
@@ -443,9 +449,10 @@ Definition h_set_log_base (s : dstate) (size off file : N) : dstate * dres :=
   else (set_mem s (with_logs m (map (fun r => {| rg_gpa := rg_gpa r; rg_size := rg_size r; rg_file := rg_file r; rg_off := rg_off r;
                                                  rg_log := Some (file, off, size) |}) (m_regs m)) (Some (file, off, size))), DOk []).
 
+(* vmm_va_to_gpa: first mapping that contains the address; containment test and value REGENERATED from handler.rs *)
 Definition va_to_gpa (maps : list mapping) (va : N) : option N :=
-  match find (fun mp => (m_vmm mp <=? va) && (va <? m_vmm mp + m_size mp)) maps with
-  | Some mp => Some (va - m_vmm mp + m_gpa mp)
+  match find (fun mp => va_hit va (m_vmm mp) (m_size mp) (m_gpa mp)) maps with
+  | Some mp => Some (va_gpa va (m_vmm mp) (m_size mp) (m_gpa mp))
   | None => None
   end.
 
@@ -522,7 +529,7 @@ Definition control (s : dstate) (fe_ok rq_ok : bool) (awaits_reply : bool) (h : 
    worker with the registered id; the worker reads the ring's CURRENT kick descriptor and dispatches iff enabled *)
 Definition slice_of (s : dstate) (t : nat) : list N :=
   match nth_error (d_masks s) t with
-  | Some m => filter (fun q => N.testbit m q) (map N.of_nat (seq 0 (d_nq s)))
+  | Some m => filter (fun q => route_member m q) (map N.of_nat (seq 0 (d_nq s)))     (* VhostUserHandler::new, regenerated test *)
   | None => []
   end.
 Fixpoint poll (fuel : nat) (s : dstate) (events : list val) : dstate * list val :=
